@@ -27,7 +27,7 @@ func init() {
 	concSpec("C02", &ConcOpts{
 		Profile: Profile{Prop: "C02", NoExp: true, NoRef: true, Keys: [2]int{1, 6}},
 		OpW:     zeroExcept(kvOps), Tasks: [2]int{2, 4}, OpsPer: [2]int{3, 14}, Prefill: [2]int{0, 8},
-		Executors: []string{"default", "sync", "queued"}, Lin: true,
+		Executors: []string{"default", "sync", "queued"}, Lin: true, Resize: true,
 	})
 	// C04 / C05 / C06: bound, bookkeeping and event accounting at quiescence after CleanUp.
 	sizeOps := zeroExcept(map[string]int{"set": 20, "setifabsent": 5, "get": 8, "compute": 6, "computeifabsent": 3, "computeifpresent": 3,
